@@ -21,6 +21,8 @@ func main() {
 		rc = cmdCheck(os.Args[2:])
 	case "replay":
 		rc = cmdReplay(os.Args[2:])
+	case "selftest":
+		rc = cmdSelftest(os.Args[2:])
 	default:
 		fmt.Fprintln(os.Stderr, "unknown command", os.Args[1])
 		rc = 2
